@@ -14,7 +14,7 @@ use crate::proto::{Ctx, attrs};
 pub fn meta() -> Meta {
     Meta {
         level: "exploration",
-        rule: "exhaustive for n=3: all 256 functions x all 6 orders x kinds {bdd,bcdd,zbdd}: pick_cube and pick_cube_dd under all 8 per-level choice vectors (closure calls recorded), pick_cube_dd_set under all 27 literal sets, pick_cube_uniform for RNG seeds 0..64 with exact replay of the WyRand stream against model branch probabilities, with a fresh count cache per call and with one cache (cache_all) shared by all functions across two reorderings. The expected cube is derived from the truth-table/family model alone (forced <=> other cofactor unsatisfiable; independent/hi==lo <=> don't care; ZBDD skipped level <=> false). thorough: n=4, 2 orders, 16 choice vectors, 81 literal sets. Non-trivial: the function is satisfiable and not a tautology.",
+        rule: "exhaustive for n=3: all 256 functions x all 6 orders x kinds {bdd,bcdd,zbdd}: pick_cube and pick_cube_dd under all 8 per-level choice vectors (closure calls recorded), pick_cube_dd_set under all 27 literal sets, pick_cube_uniform for RNG seeds 0..64 with exact replay of the WyRand stream against model branch probabilities, with a fresh count cache per call, with one cache (cache_all) shared by all functions across two reorderings, and (n=3 all functions, n=4 every third function under 2 orders) for a function that is alone in its manager with cache_all off and on. The expected cube is derived from the truth-table/family model alone (forced <=> other cofactor unsatisfiable; independent/hi==lo <=> don't care; ZBDD skipped level <=> false). thorough: n=4, 2 orders, 16 choice vectors, 81 literal sets. Non-trivial: the function is satisfiable and not a tautology.",
         assumptions: vec![
             "nanorand::WyRand (oxidd::util::Rng) is deterministic for a given seed; the harness clones the generator to predict draws".into(),
             "statistical uniformity is not sampled; it follows from exact agreement with the model's models-proportional branch probabilities".into(),
@@ -29,6 +29,12 @@ pub fn shards(tier: &str) -> Vec<String> {
     for k in ["bdd", "bcdd", "zbdd"] {
         for o in model::perms(3) {
             v.push(format!("{k}:{}", model::order_str(&o)));
+        }
+    }
+    // four variables, the function alone in its manager (every third table)
+    for k in ["bdd", "bcdd", "zbdd"] {
+        for o in ["0123", "2310"] {
+            v.push(format!("{k}:{o}:alone"));
         }
     }
     if tier == "thorough" {
@@ -47,6 +53,13 @@ pub fn run(ctx: &mut Ctx) {
     let shard = ctx.shard.clone();
     let p: Vec<&str> = shard.split(':').collect();
     let order = model::parse_order(p[1]);
+    if p.get(2) == Some(&"alone") {
+        return match p[0] {
+            "bdd" => alone_group::<Bdd>(ctx, 4, &order, 3),
+            "bcdd" => alone_group::<Bcdd>(ctx, 4, &order, 3),
+            _ => alone_group::<Zbdd>(ctx, 4, &order, 3),
+        };
+    }
     let part: Option<u64> = p.get(2).map(|s| s.parse().unwrap());
     match p[0] {
         "bdd" => run_k::<Bdd>(ctx, &order, part),
@@ -54,6 +67,49 @@ pub fn run(ctx: &mut Ctx) {
         "zbdd" => run_k::<Zbdd>(ctx, &order, part),
         _ => panic!(),
     }
+}
+
+/// Uniform picking of a function that is ALONE in its manager (each of its inner nodes has one parent unless the
+/// function itself shares it), with a fresh cache, cache_all off and on: every `step`-th table; the previous
+/// function is dropped and collected before the next one is built.
+fn alone_group<K: BoolKind>(ctx: &mut Ctx, n: u32, order: &[u32], step: u64) {
+    use oxidd::{Manager, ManagerRef};
+    let zbdd = K::BK == BKind::Zbdd;
+    ctx.group(&format!("pick_cube_uniform n={n}, function alone in its manager"), |ctx| {
+        let mref = crate::dd::fresh::<K>(n, order, 1024, 64, 1);
+        let mut t = 1u64;
+        while t < (1u64 << (1 << n)) {
+            let f = K::build(&mref, t).unwrap();
+            for cache_all in [false, true] {
+                for seed in 0..8u64 {
+                    ctx.count("evaluations", 1);
+                    ctx.count("nontrivial", 1);
+                    let mut rng = Rng::new_seed(seed);
+                    let mut shadow = rng.clone();
+                    let mut cache: SatCountCache<oxidd::util::num::F64, std::hash::BuildHasherDefault<rustc_hash::FxHasher>> = SatCountCache::default();
+                    cache.cache_all = cache_all;
+                    let got = f.pick_cube_uniform(&mut cache, &mut rng).map(|c| ob(&c));
+                    let (exp, _) = expected_cube(zbdd, t, n, order, |_, g1, g0| {
+                        use nanorand::Rng as _;
+                        let r: f64 = shadow.generate::<f64>();
+                        let a = g1.count_ones() as f64;
+                        let b = g0.count_ones() as f64;
+                        r < a / (a + b)
+                    });
+                    if got.as_ref() != Some(&exp) {
+                        ctx.viol(
+                            attrs(&[("kind", K::NAME), ("op", "pick_cube_uniform"), ("class", "biased_branch_alone")]),
+                            case::<K>(n, order, "pick_cube_uniform", t, json!({"seed": seed, "cache_all": cache_all, "alone_in_manager": true}), &format!("{exp:?}"), &format!("{got:?}")),
+                            &format!("{} order {} pick_cube_uniform of {t:#x} (the only function of its manager, cache_all = {cache_all}) seed {seed}: {got:?}, but models-proportional branching with the same random draws gives {exp:?}", K::NAME, model::order_str(order)),
+                        );
+                    }
+                }
+            }
+            drop(f);
+            mref.with_manager_shared(|m| m.gc());
+            t += step;
+        }
+    });
 }
 
 #[derive(Clone, Copy, PartialEq, Eq, Debug)]
@@ -453,6 +509,9 @@ where
         }
         ctx.sample(|| case::<K>(n, &order, "pick_cube", 0xe8, json!({"choice_vector_by_level": 5}), "-", "-"));
     });
+    if part.is_none() {
+        alone_group::<K>(ctx, n, &order, 1);
+    }
     // uniform picking with ONE caller-owned count cache for all functions, used before and after a
     // reordering (every node counted): the branch probabilities must be those of the current diagram
     if part.is_none() {
